@@ -150,6 +150,13 @@ Definition vslice {X} (v : list N) (a b : N) : M X (list N) :=
 (** usize addition: overflow would be a panic (checked build) or a wrap (release): [Fault] *)
 Definition uadd {X} (a b : N) : M X N :=
   fun s => if a + b <? W64 then (s, Ok (a + b)) else (s, Fault).
+(** stack values are well-typed: each argument is below the bound of its Wasm type *)
+Fixpoint args_wf (bounds args : list N) : Prop :=
+  match bounds, args with
+  | b :: bounds', a :: args' => a < b /\ args_wf bounds' args'
+  | _, _ => True
+  end.
+
 (** lifting an option: [None] is a trap *)
 Definition lift_trap {X A} (o : option A) : M X A :=
   fun s => match o with Some a => (s, Ok a) | None => (s, Trap) end.
